@@ -170,6 +170,9 @@ func loadWorld(o LoadOpts) (*World, error) {
 			if fn.Synthetic != "" && !strings.Contains(fn.Synthetic, "instance") {
 				continue // wrappers, thunks, package initialisers are handled separately
 			}
+			if w.inTestFile(fn) {
+				continue // with Tests: functions of _test.go files are not part of the library under analysis
+			}
 			w.Fns = append(w.Fns, fn)
 			w.fnSet[fn] = true
 			w.pkgOf[fn] = n
@@ -447,4 +450,14 @@ func (w *World) FileOf(pos token.Pos) *ast.File {
 		}
 	}
 	return nil
+}
+
+// inTestFile reports whether fn (or the function it is nested in) is declared in a _test.go file.
+func (w *World) inTestFile(fn *ssa.Function) bool {
+	for f := fn; f != nil; f = f.Parent() {
+		if f.Pos().IsValid() {
+			return strings.HasSuffix(w.Fset.Position(f.Pos()).Filename, "_test.go")
+		}
+	}
+	return false
 }
